@@ -12,14 +12,19 @@
 //! {remote only, remote + embedded}.
 //!
 //! Oracles (none of them uses SDK code or quick-xml):
-//!   1. read side: `Reader` with `verify.remote_manifest_fetch=false` must fail with
-//!      `RemoteManifestUrl(u')`, `u' == u` (string equality).  For remote + embedded the embedded
-//!      manifest is first removed (hook `remove_jumbf_from_stream`) and the same is demanded.
-//!   2. write side: the XMP packet is located in the output bytes by scanning for `<x:xmpmeta`
-//!      (GIF: after undoing the data sub-block framing), parsed with the XML parser below and must
-//!      carry a dcterms:provenance property whose *unescaped* value is `u`.
+//!   1. write side: the XMP packet is located in the output bytes by scanning for `<x:xmpmeta`
+//!      (GIF: also in the de-framed data sub-blocks), parsed with the XML parser below and must carry a
+//!      dcterms:provenance property whose *unescaped* value `e` is the URL given to the builder: either
+//!      the same string ("verbatim") or another spelling of the same URL ("normalised": the builder
+//!      stores the WHATWG serialisation, e.g. `é` -> `%C3%A9`, `<` -> `%3C` in queries; equality of the
+//!      two spellings is decided by parsing both with the `url` crate).
+//!   2. read side: `Reader` with `verify.remote_manifest_fetch=false` must fail with
+//!      `RemoteManifestUrl(u')`, `u' == e` (string equality with what is embedded).  For remote +
+//!      embedded the embedded manifest is first removed and the same is demanded.
 //!   3. preservation: every (expanded-name, value) property of the input packet other than
 //!      dcterms:provenance is present with an equal value in the output packet(s).
+//! A cause seen on every format family that exercised its precondition gets the scope `any-fmt` in
+//! its signature (it sits in the shared XMP code), otherwise the family is part of the signature.
 use c2pa::{verif_hooks, Builder, Context, Reader};
 use serde_json::json;
 use std::collections::{BTreeMap, BTreeSet};
@@ -365,10 +370,10 @@ fn find_sub(h: &[u8], n: &[u8], from: usize) -> Option<usize> {
     (from..=h.len() - n.len()).find(|&i| &h[i..i + n.len()] == n)
 }
 
-/// GIF: undo the data sub-block framing of every application extension named "XMP DataXMP" whose
-/// payload is framed (the SDK writes it that way) so that the packet becomes contiguous.
-fn gif_unframe(data: &[u8]) -> Vec<u8> {
-    let mut out = data.to_vec();
+/// GIF: the de-framed payload of every application extension named "XMP DataXMP" (the SDK writes the
+/// packet as data sub-blocks), so that the packet becomes contiguous.
+fn gif_unframe(data: &[u8]) -> Vec<Vec<u8>> {
+    let mut out = Vec::new();
     let mut from = 0;
     while let Some(p) = find_sub(data, b"\x21\xFF\x0BXMP DataXMP", from) {
         let mut i = p + 14;
@@ -387,34 +392,39 @@ fn gif_unframe(data: &[u8]) -> Vec<u8> {
             i += 1 + l;
         }
         if ok && find_sub(&flat, b"<x:xmpmeta", 0).is_some() {
-            out.extend_from_slice(b"\n--unframed--\n");
-            out.extend_from_slice(&flat);
+            out.push(flat);
         }
         from = p + 14;
     }
     out
 }
 
-/// All `<x:xmpmeta … </x:xmpmeta>` spans (as UTF-8 strings) in `data`, de-duplicated.
-fn find_packets(fmt_family: &str, data: &[u8]) -> Vec<String> {
-    let unframed;
-    let hay: &[u8] = if fmt_family == "gif" {
-        unframed = gif_unframe(data);
-        &unframed
-    } else {
-        data
-    };
-    let mut out: Vec<String> = Vec::new();
+fn packets_in(hay: &[u8], out: &mut Vec<String>) {
     let mut from = 0;
     while let Some(s) = find_sub(hay, b"<x:xmpmeta", from) {
         let Some(e) = find_sub(hay, b"</x:xmpmeta>", s) else { break };
         let end = e + b"</x:xmpmeta>".len();
-        if let Ok(t) = std::str::from_utf8(&hay[s..end]) {
-            if !out.iter().any(|x| x == t) {
-                out.push(t.to_string());
+        match std::str::from_utf8(&hay[s..end]) {
+            Ok(t) => {
+                if !out.iter().any(|x| x == t) {
+                    out.push(t.to_string());
+                }
+                from = end;
             }
+            // a span broken by framing bytes: look for another start behind this one
+            Err(_) => from = s + 1,
         }
-        from = end;
+    }
+}
+
+/// All `<x:xmpmeta … </x:xmpmeta>` spans (as UTF-8 strings) in `data`, de-duplicated.
+fn find_packets(fmt_family: &str, data: &[u8]) -> Vec<String> {
+    let mut out: Vec<String> = Vec::new();
+    packets_in(data, &mut out);
+    if fmt_family == "gif" {
+        for flat in gif_unframe(data) {
+            packets_in(&flat, &mut out);
+        }
     }
     out
 }
@@ -805,7 +815,10 @@ struct Res {
     class: Option<String>,
     trivial: Option<String>,
     /// (sig, what, extra witness)
-    violations: Vec<(String, String, serde_json::Value)>,
+    /// (family, cause, class, precondition key, what, witness detail)
+    violations: Vec<(String, String, String, String, String, serde_json::Value)>,
+    /// preconditions this case exercised (xmp state, "xml-special")
+    preconds: Vec<String>,
     counters: Vec<(String, u64)>,
     unjudged: Vec<String>,
 }
@@ -867,8 +880,11 @@ fn run_case(c: &Case) -> Res {
     let mode = if c.embed { "embed" } else { "remote-only" };
     let chars = special_chars(&c.url);
     let prov_name = format!("{{{NS_DCTERMS}}}provenance");
+    let shape_cls: String = c.shape.rsplit('@').next().unwrap_or(c.shape).to_string();
+    let shape_key = shape_cls.clone();
     let mut viol = |res: &mut Res, scope: &str, cause: &str, cls: &str, what: String, extra: serde_json::Value| {
-        res.violations.push((format!("{scope}|{cause}|{cls}"), what, extra));
+        let pre = if cause == "read-not-unescaped" { "xml-special".to_string() } else { shape_key.clone() };
+        res.violations.push((scope.to_string(), cause.to_string(), cls.to_string(), pre, what, extra));
     };
 
     // input side (independent): the packet we injected must be found and parse
@@ -913,9 +929,9 @@ fn run_case(c: &Case) -> Res {
     let mut spelling = "n/a";
     let same_url = |a: &str, b: &str| -> bool { matches!((url::Url::parse(a), url::Url::parse(b)), (Ok(x), Ok(y)) if x == y) };
     if let Some(e) = &out_parse_err {
-        viol(&mut res, c.family, "output-packet-illformed", c.shape, format!("the XMP packet in the output is not (namespace-)well-formed: {e}"), json!({"packets": out_packets}));
+        viol(&mut res, c.family, "output-packet-illformed", &shape_cls, format!("the XMP packet in the output is not (namespace-)well-formed: {e}"), json!({"packets": out_packets}));
     } else if provs.is_empty() {
-        viol(&mut res, c.family, "write-missing", c.shape, format!("signing succeeded but no dcterms:provenance property is in the output XMP ({} packet(s) found)", out_packets.len()), json!({"packets": out_packets}));
+        viol(&mut res, c.family, "write-missing", &shape_cls, format!("signing succeeded but no dcterms:provenance property is in the output XMP ({} packet(s) found)", out_packets.len()), json!({"packets": out_packets}));
     } else {
         if let Some(p) = provs.iter().find(|p| p.1 == c.url) {
             embedded = Some(p.1.clone());
@@ -958,12 +974,11 @@ fn run_case(c: &Case) -> Res {
         res.counters.push(("properties_compared".into(), in_props.iter().filter(|p| p.0 != prov_name).count() as u64));
     }
     if !lost.is_empty() {
-        let changed = lost.iter().any(|l| !l["after"].as_array().unwrap().is_empty());
         viol(
             &mut res,
             c.family,
-            if changed { "prop-changed" } else { "prop-lost" },
-            c.shape,
+            "props-not-preserved",
+            &shape_cls,
             format!("{} of {} pre-existing XMP properties missing/changed after embedding", lost.len(), in_props.len()),
             json!({"lost": lost, "out_packets": out_packets}),
         );
@@ -1024,12 +1039,14 @@ fn run_case(c: &Case) -> Res {
                     // shared extraction code returns the raw (escaped) attribute text: one cause for all formats
                     viol(
                         &mut res,
-                        "any-fmt",
+                        c.family,
                         "read-not-unescaped",
                         "xml-special",
                         format!("embedded {:?}, reader returned {:?} (the XML-escaped spelling)", embedded.as_deref().unwrap_or(""), u2),
                         json!({"returned": u2, "family": c.family, "chars": chars}),
                     );
+                } else if out_parse_err.is_some() {
+                    outcome = "url-unjudged-packet-illformed".into();
                 } else {
                     outcome = "url-differs".into();
                     viol(&mut res, c.family, "read-mismatch", &format!("{}|{}", c.shape, chars), format!("signed with {:?}, embedded {:?}, reader returned {:?}", c.url, embedded, u2), json!({"returned": u2, "out_packets": out_packets}));
@@ -1037,18 +1054,28 @@ fn run_case(c: &Case) -> Res {
             }
             ReadBack::OtherErr(e) => {
                 outcome = "no-url".into();
+                if write_ok || out_parse_err.is_some() {
+                    // (when nothing was written the write-missing report above already covers it)
+                }
+                if write_ok
+                {
                 viol(&mut res, c.family, "read-missing", &format!("{}|{}", c.shape, if write_ok { "written-ok" } else { "not-written" }), format!("embedded {:?}, reader failed with {e} instead of RemoteManifestUrl", c.url), json!({"out_packets": out_packets, "stripped_embedded_manifest": stripped}));
+                }
             }
             ReadBack::Ok { state, .. } => {
                 outcome = "read-ok".into();
                 let cause = if c.shape == "signed" && !c.embed { "stale-embedded-manifest-kept" } else { "read-ok-without-manifest" };
-                viol(&mut res, c.family, cause, c.shape, format!("reader returned Ok({state}) instead of RemoteManifestUrl for an asset signed remote-only (fetching disabled)"), json!({"c2pa_chunk_or_box_still_present": find_sub(&subject, b"c2pa", 0).is_some() || find_sub(&subject, b"C2PA", 0).is_some()}));
+                viol(&mut res, c.family, cause, &shape_cls, format!("reader returned Ok({state}) instead of RemoteManifestUrl for an asset signed remote-only (fetching disabled)"), json!({"c2pa_chunk_or_box_still_present": find_sub(&subject, b"c2pa", 0).is_some() || find_sub(&subject, b"C2PA", 0).is_some()}));
             }
             ReadBack::Panic(p) => {
                 outcome = "panic".into();
                 viol(&mut res, c.family, "panic-read", c.shape, format!("panic while reading: {p}"), json!({}));
             }
         }
+    }
+    res.preconds.push(shape_cls.clone());
+    if chars != "no-xml-special" && write_ok {
+        res.preconds.push("xml-special".into());
     }
     let merged = if c.shape == "none" { "new-packet" } else if out_packets.len() == 1 { "merged" } else { "separate-packets" };
     res.class = Some(format!("{}|{}|{}|{}|{}|{}", c.family, c.shape, mode, chars, merged, outcome));
@@ -1058,10 +1085,11 @@ fn run_case(c: &Case) -> Res {
 fn main() {
     let mut run = Run::from_args("C30", "exploration");
     report::quiet_panics();
-    run.rule = "cases = (asset of every remote-reference-capable format: tiny synthetic assets with an injected XMP packet in one of 12 states, plus small fixtures) x (URL built from a feature subset: query &, fragment, %xx, literal &amp;, literal &#38;, < > \" ', unicode, 2 KB, IPv6, userinfo+port) x {remote-only, remote+embedded}; directed singles of every feature on every family run on every invocation, the rest is seeded random. Non-trivial = signing succeeded and the read-back + independent packet parse were judged; distinct = (family, xmp state, mode, xml-special chars in URL, merged/new packet, outcome).".into();
+    run.rule = "cases = (asset of every remote-reference-capable format: tiny synthetic assets with an injected XMP packet in one of 12 states (GIF: in the SDK's sub-block framing and in the layout of the XMP specification), an already signed copy, plus small fixtures) x (URL built from a feature subset: query &, fragment, %xx, literal &amp;, literal &#38;, < > \" ', unicode, 2 KB, IPv6, userinfo+port) x {remote-only, remote+embedded}; directed singles of every feature on every family run on every invocation, the rest is seeded random. Non-trivial = signing succeeded and the read-back + independent packet parse were judged; distinct = (family, xmp state, mode, xml-special chars in URL, merged/new packet, outcome).".into();
     run.assumptions = vec![
         "the harness's own XML parser and byte scan for <x:xmpmeta … </x:xmpmeta> find the packet (GIF: after undoing data sub-block framing)".into(),
-        "strings with spaces/control characters are not generated (not URLs); a URL the builder refuses to sign with is counted as unjudged, not as a violation".into(),
+        "strings with spaces/control characters are not generated (not URLs); a URL or asset the builder refuses to sign is counted as unjudged (sign-error:*), not as a violation".into(),
+        "the builder stores url::Url::parse(u).to_string(); a written value that parses to the same URL as u is accepted as 'normalised' and the reader must return exactly that written string".into(),
         "Reader::remote_url() is documented to be set only when the manifest was fetched remotely, so for remote+embedded output the reference is judged on the packet bytes and after removing the embedded manifest".into(),
         "a stale second dcterms:provenance property (element form) left next to the new attribute is reported, not judged".into(),
     ];
@@ -1104,7 +1132,8 @@ fn main() {
             for variant in if *fam == "gif" { vec!["framed", "raw"] } else { vec![""] } {
                 if let Some((fmt, bytes)) = inject(fam, variant, &xmp) {
                     if verif_hooks::capabilities(fmt).map(|c| c.3).unwrap_or(false) {
-                        subjects.push((fam, fmt, format!("tiny+xmp{}{}", if variant.is_empty() { "" } else { "-" }, variant), shape, bytes));
+                        let shape_label: &'static str = if variant == "raw" { Box::leak(format!("{shape}@gif-spec-layout").into_boxed_str()) } else { shape };
+                        subjects.push((fam, fmt, format!("tiny+xmp{}{}", if variant.is_empty() { "" } else { "-" }, variant), shape_label, bytes));
                     }
                 }
             }
@@ -1180,8 +1209,8 @@ fn main() {
         };
         let r = run_case(&c);
         println!("replay: class={:?} trivial={:?}", r.class, r.trivial);
-        for (sig, what, _) in &r.violations {
-            println!("replay: violation sig={sig} {what}");
+        for (fam, cause, cls, _, what, _) in &r.violations {
+            println!("replay: violation {fam}|{cause}|{cls} {what}");
         }
         std::process::exit(if r.violations.is_empty() { 0 } else { 1 });
     }
@@ -1191,9 +1220,9 @@ fn main() {
             let r = run_case(c);
             println!("--- {}|{}|{}|{:?}|embed={} url={}", c.family, c.shape, c.asset_name, c.feats, c.embed, c.url);
             println!("    class={:?} trivial={:?} unjudged={:?}", r.class, r.trivial, r.unjudged);
-            for (sig, what, extra) in &r.violations {
+            for (fam, cause, cls, _, what, extra) in &r.violations {
                 let e = extra.to_string();
-                println!("    VIOL {sig} :: {what}\n         {}", &e[..e.len().min(3000)]);
+                println!("    VIOL {fam}|{cause}|{cls} :: {what}\n         {}", &e[..e.len().min(3000)]);
             }
         }
         return;
@@ -1202,6 +1231,17 @@ fn main() {
     let mut unjudged: BTreeMap<String, u64> = BTreeMap::new();
     let mut matrix: BTreeMap<String, BTreeSet<String>> = BTreeMap::new();
     let mut trivial: BTreeMap<String, u64> = BTreeMap::new();
+    // which families exercised which precondition (xmp state / xml-special characters reaching the XMP layer)
+    let mut tested: BTreeMap<String, BTreeSet<&'static str>> = BTreeMap::new();
+    let mut failing: BTreeMap<(String, String, String), BTreeSet<String>> = BTreeMap::new();
+    for (i, r) in results.iter().enumerate() {
+        for p in &r.preconds {
+            tested.entry(p.clone()).or_default().insert(cases[i].family);
+        }
+        for (fam, cause, cls, pre, _, _) in &r.violations {
+            failing.entry((cause.clone(), cls.clone(), pre.clone())).or_default().insert(fam.clone());
+        }
+    }
     for (i, r) in results.iter().enumerate() {
         let c = &cases[i];
         run.eval();
@@ -1223,16 +1263,20 @@ fn main() {
                 run.sample(&kind, 2, case_json(c));
             }
         }
-        for (sig, what, extra) in &r.violations {
+        for (fam, cause, cls, pre, what, extra) in &r.violations {
+            // a cause seen on every family that exercised its precondition sits in the shared XMP code:
+            // one signature for all formats; otherwise the format family is part of the cause class
+            let fams = failing.get(&(cause.clone(), cls.clone(), pre.clone())).cloned().unwrap_or_default();
+            let all: BTreeSet<String> = tested.get(pre).map(|t| t.iter().map(|x| x.to_string()).collect()).unwrap_or_default();
+            let scope = if fams.len() >= 3 && fams == all { "any-fmt".to_string() } else { fam.clone() };
+            let sig = format!("{scope}|{cause}|{cls}");
             let mut w = case_json(c);
             w["detail"] = extra.clone();
-            if !c.directed {
-                // keep witnesses small: random cases only report when no directed case has the same signature
-            }
             matrix.entry(sig.clone()).or_default().insert(format!("{}|{}|{}", c.family, c.shape, special_chars(&c.url)));
-            run.violation(sig, what, w);
+            run.violation(&sig, what, w);
         }
     }
+    run.set("families_per_precondition", json!(tested));
     run.set("directed_cases", json!(n_directed));
     run.set("random_cases", json!(n_random));
     run.set("unjudged", json!(unjudged));
